@@ -702,6 +702,10 @@ class Py2Cpp(ITranspiler):
 		if not value_raw.type_is(tuple):
 			raise Errors.OperationNotAllowed(node, 'Reject assign. Must be a tuple')
 
+		# タプルリテラルの場合、波括弧のみでは構造化束縛の型を推論できないため、型を明示
+		if isinstance(node.value, defs.Tuple):
+			value = f'{self.to_accessible_name(value_raw)}{value}'
+
 		return self.render(node, f'assign/{node.classification}_destruction', vars={'receivers': receivers, 'value': value})
 
 	def on_anno_assign(self, node: defs.AnnoAssign, receiver: str, var_type: str, value: str) -> str:
